@@ -301,8 +301,8 @@ SPEC = {
              'than the lookup of every completion (own enumeration). Non-trivial: lookup needing negation / re-ordering / '
              'duplication; entries with a non-zero table.'),
     'assumptions': ['the set of stored labels is read from the opened database dictionary (no public iterator exists)'],
-    'subs': [Sub('lookup', lookup_cases, check_lookup_case, {'quick': 1600, 'thorough': 30000}),
-             Sub('dont_care_lookup', dc_cases, check_dc, {'quick': 320, 'thorough': 6000})],
+    'subs': [Sub('lookup', lookup_cases, check_lookup_case, {'quick': 1600, 'thorough': 150000}),
+             Sub('dont_care_lookup', dc_cases, check_dc, {'quick': 320, 'thorough': 30000})],
     'sharded': {'entries': entries_sweep, 'lookups': lookups_sweep},
     'replay': {'entries': replay_entry, 'lookups': replay_lookup},
     'required_classes': {'lookup': ['needs_negation', 'duplicate_outputs', 'complementary_outputs', 'needs_reordering',
